@@ -166,6 +166,22 @@ pub fn run_one(ctx: &Ctx, base: &BaseTables, gc: &GroupCase, sd: &SubsetDefiniti
                     case(),
                 );
             }
+            // when nothing invalidating is offered every glyph keyed candidate can be applied together:
+            // the group must then carry every distinct candidate URI (entries must not be merged or lost)
+            if cands.iter().all(|c| c.format == 3) {
+                let mut want: Vec<&String> = cands.iter().map(|c| &c.uri).collect();
+                want.sort();
+                want.dedup();
+                let mut got: Vec<&String> = uris.iter().collect();
+                got.sort();
+                if got != want {
+                    ctx.run.violation(
+                        "select_next_patches group omits an intersecting glyph keyed patch although nothing invalidating is offered",
+                        &format!("{sig}: group={uris:?} candidate URIs={want:?}"),
+                        case(),
+                    );
+                }
+            }
             for u in &uris {
                 h.str(u);
             }
@@ -411,6 +427,36 @@ pub fn run_groups(ctx: &Ctx, base: &BaseTables) {
             ctx.merge(l);
         });
         n += counter.load(std::sync::atomic::Ordering::Relaxed);
+    }
+    // string ids that differ only by NUL bytes: distinct URIs, in one table and across IFT / IFTX
+    {
+        let mut l = Local::default();
+        let groups = crate::extra::nul_id_groups();
+        for g in &groups {
+            for fmts in [[3u8, 3, 3], [3, 2, 3], [2, 2, 3], [1, 3, 3]] {
+                let mk = |template: &[u8], compat: [u32; 4], ids: &[&[u8]]| {
+                    let mut t = crate::extra::t2_with_string_ids(template, ids);
+                    t.compat = compat;
+                    for (i, e) in t.entries.iter_mut().enumerate() {
+                        e.patch_format = Some(fmts[i % 3]);
+                        e.cps = Cps::Set { bias_kind: 0, bias: 0, members: if i % 2 == 0 { vec![A] } else { vec![A, B] } };
+                    }
+                    t
+                };
+                for (d, sd) in defs.iter().zip(&sds) {
+                    let t = mk(b"p/{id}", c1, g);
+                    let gc = GroupCase { ift: Some(TableModel::F2(t.clone())), iftx: None, def: d.clone() };
+                    run_one(ctx, base, &gc, sd, &mut l);
+                    // the same ids split over both tables with one template
+                    let a = mk(b"p/{id}", c1, &g[..1]);
+                    let b = mk(b"p/{id}", c2, &g[1..]);
+                    let gc = GroupCase { ift: Some(TableModel::F2(a)), iftx: Some(TableModel::F2(b)), def: d.clone() };
+                    run_one(ctx, base, &gc, sd, &mut l);
+                    n += 2;
+                }
+            }
+        }
+        ctx.merge(l);
     }
     run.count("group_selections_checked", n);
     run.sample(json!({"space":"group","ift": ift_tables[40], "iftx": iftx_same[77], "definition": defs[2]}));
